@@ -12,7 +12,8 @@ META = {
     "claim": "For every position where request- or content-derived text is echoed (entry name, local selector, URL: selector, remote host, directory "
     "title, not-found message, redirect URL, text lines converted to WML, Gopher+ attribute text) the real renderer is executed with a symbolic "
     "payload over the markup metacharacters; on every path the page has the same element/attribute skeleton as for an inert payload, so data "
-    "never changes the page structure; Gopher+ block content lines always start with a blank and can never pass for block headers.",
+    "never changes the page structure; Gopher+ block content lines always start with a blank and can never pass for block headers."
+    " HTTP/WAP header blocks contain no client text (request path or request headers, marked and with a symbolic tail) and only well-formed lines; attribute lines of any length stay single blank-prefixed lines.",
     "trusted": "CrossHair/z3; plugin models of %-formatting, html.escape (validated) and of UTF-8/surrogateescape encoding as an opaque bijection; urllib.parse.quote as a tagging stub (its output alphabet is validated in C05).",
     "explanation": "Skeleton non-interference of renderers under symbolic payloads.",
     "assumptions": [
